@@ -119,7 +119,11 @@ func (e *EventEmitter) handleSubscriber(ctx context.Context, sub event.Subscript
 			select {
 			case e = <-sub.Out():
 			case <-ctx.Done():
+				// signal under the lock: otherwise the signal is lost when the
+				// other goroutine is between its check and its Wait
+				condProcess.L.Lock()
 				condProcess.Signal()
+				condProcess.L.Unlock()
 				return
 			}
 
